@@ -69,8 +69,9 @@ def mon_layout(steps, meta):
     for st in steps:
         if st.op == "write" and len(st.tok) > 2:
             p = vlib.unhexs(st.tok[2])
-            if p.startswith(wc.WATCH + "/"):
-                written.add(p[len(wc.WATCH) + 1:])
+            base = wc.R + meta.get("wprefix", "/w/")       # the common parent of the write roots of this case
+            if p.startswith(base):
+                written.add(p[len(base):])
         if st.dump is None:
             continue
         cur = st.dump
@@ -117,7 +118,9 @@ def main(rep):
         nw = 150 if rep.tier == "quick" else 3000
         wcases = [("w%d" % i, wc.gen_world_case(rng, dump_around=True), {}) for i in range(nw)]
         # projects whose root is not directly under the common parent (children of a project parent), files at depth
-        wcases += [("j%d" % i, wc.gen_project_case(rng)[0], {}) for i in range(nw // 3)]
+        for i in range(nw // 3):
+            t, m = wc.gen_project_case(rng)
+            wcases.append(("j%d" % i, t, m))
         if not found:
             f2, v2 = wk.run_cases(rep, exe_impl, exe_model, wcases, ["confined", "layout", "faithful"], what="confinement")
             found = found or f2
